@@ -159,6 +159,10 @@ def st_transpose(ctx, s):
     s.transpose(ctx.args["n"])
 
 
+def st_transpose_wrap(ctx, s):
+    s.transpose(60 + ctx.args["n"])          # leaves the playable range: octave wrap, normalise, re-quantisation
+
+
 def st_quantise(ctx, s):
     s.quantise([4])
 
@@ -396,7 +400,7 @@ def queries(tier, seed):
     for c in ("n1", "n2", "n2t"):
         qs.append(q_conversion(c, wmax))
     for st in STEPS:
-        heavy = st in ("quantise", "qnl", "quantise_and_normalise", "merge", "cutoff")
+        heavy = st in ("quantise", "qnl", "quantise_and_normalise", "merge", "cutoff", "transpose_wrap")
         # position-sensitive steps (j-th yielded message, insertion index) are only meaningful on the list the caller sees,
         # so contents of step queries have no simultaneous events in non-canonical order (conversion normal form)
         for c in (("n1", "n2g") if tier == "quick" else ("n1", "n2", "n2g", "ill")):
